@@ -15,7 +15,7 @@ import itertools
 
 import numpy as np
 
-from vf.bounded import Suite
+from vf.bounded import Suite, jkey
 from refsem import core as R
 from refsem import cgroup as G
 from refsem import cutrank as CR
@@ -191,7 +191,9 @@ def n_emitters_case(inp):
     "solver.n_emitter",
     site="graphiq.solvers.time_reversed_solver:TimeReversedSolver.__init__",
     bound="all labelled graphs n<=4 (thorough n<=5; isolated vertices included) given as graph / stabilizer / "
-    "density-matrix QuantumState, and seeded non-sorted vertex orders for graph input",
+    "density-matrix QuantumState, and seeded non-sorted vertex orders for graph input; + fixed: all 60 labelled 6-rings and every 8th "
+    "of the 384 field-sensitive 6-vertex graphs (those without isolated vertex); + 30 (thorough 200) seeded graphs on 7..8 vertices, "
+    "half field-sensitive; graph / stabilizer input alternating",
     exhaustive=False,  # exhaustive part + seeded part, see bound
     clause="the deterministic solver allocates exactly max(height) emitters - the minimum for the given emission order",
 )
@@ -233,7 +235,8 @@ S.item(
     "solver.emits_once",
     site="graphiq.solvers.time_reversed_solver:TimeReversedSolver.solve",
     bound="all labelled graphs without isolated vertex n<=4 (thorough n<=5, plus 2000 seeded graphs on 6 vertices) x "
-    "graph / stabilizer / density-matrix input, stabilizer compiler",
+    "graph / stabilizer / density-matrix input, stabilizer compiler; quick also every 23rd target of the fixed 6-vertex list of "
+    "C02 solve.exact.six_vertices (59 targets, 3 emitters)",
     exhaustive=False,  # exhaustive part + seeded part, see bound
     clause="emits each photon exactly once (one emitter->photon CNOT per photon); circuit has max(height) emitters",
 )(emits_once_case)
@@ -311,8 +314,8 @@ def _dict_symptom(d, want, tag):
     "height.entry_points_agree",
     site=H + "height_dict / height_max / height_func_list / height_function ; TimeReversedSolver.determine_n_emitters",
     bound="fixed families on 6 vertices: ALL 384 labelled graphs whose cut-rank profile over the reals differs from the GF(2) "
-    "profile, all 60 labelled 6-rings, all 10 labelled K_{3,3}, all 60 labelled triangular prisms + their complements; seeded: "
-    "every graph of quick 150 / thorough 2000 random 6-vertex graphs and quick 120 / thorough 1500 graphs on 7..8 vertices, half of "
+    "profile, all 60 labelled 6-rings, all 10 labelled K_{3,3}, all 60 labelled triangular prisms (= complements of the rings), all 10 labelled "
+    "2K_3; seeded: quick 150 random 6-vertex graphs and quick 120 / thorough 1500 graphs on 7..8 vertices, half of "
     "them drawn from the field-sensitive ones; thorough: ALL 32768 labelled graphs on 6 vertices.  Per graph: graph= entry (built "
     "as nx.Graph(edges) / from_numpy_array int / float), x,z entry (int and float arrays), tableau entry; each called twice",
     exhaustive=False,
@@ -402,14 +405,14 @@ def _sorted_symptom(adjs, out, tag):
     site="graphiq.utils.relabel_module:emitter_sorted",
     bound="fixed: the 384 field-sensitive labelled 6-vertex graphs (see height.entry_points_agree) + the 60 labelled 6-rings in 74 "
     "lists of 6, each list padded with 2 graphs of other budgets; seeded: quick 40 / thorough 400 lists of 3..6 graphs on 6..8 "
-    "vertices (half field-sensitive).  Each list passed as int ndarray, float ndarray and Python list of arrays, twice",
+    "vertices (half field-sensitive).  Each list passed as int ndarray, float ndarray and Python list of float arrays, twice",
     clause="relabellings are ranked by the same emitter budget (max height = max GF(2) cut rank); the input is left unchanged",
 )
 def emitter_sorted_big_case(inp):
     from graphiq.utils.relabel_module import emitter_sorted
 
     base = [np.array(a, dtype=int) for a in inp["adjs"]]
-    forms = [("int ndarray", np.array(base)), ("float ndarray", np.array(base).astype(float)), ("list of arrays", [b.copy() for b in base])]
+    forms = [("int ndarray", np.array(base)), ("float ndarray", np.array(base).astype(float)), ("list of float arrays", [b.astype(float) for b in base])]
     for tag, arg in forms:
         before = [np.array(a).copy() for a in arg]
         for rep in (1, 2):
@@ -425,8 +428,9 @@ def emitter_sorted_big_case(inp):
     "iso_finder.sort_emit",
     site="graphiq.utils.relabel_module:iso_finder (sort_emit=True) -> emitter_sorted -> height_max(graph=)",
     bound="fixed: every 8th of the 384 field-sensitive 6-vertex graphs + 6-ring, K_{3,3}, prism in 3 labellings each, n_iso in "
-    "{8, 30} x seed in {0, 1}; seeded: quick 30 / thorough 300 graphs on 6..7 vertices with many automorphisms removed or not "
-    "(random graphs and random graphs joined with a twin vertex), n_iso in {6, 20}.  Monitor on the real emitter_sorted at its "
+    "{8, 30} x seed in {0, 1} (the 48 field-sensitive ones: n_iso in {60, 100}, so that sampled relabellings repeat and the "
+    "sorting branch runs); seeded: quick 30 / thorough 300 graphs on 6..7 vertices (half field-sensitive, a third with a twin "
+    "vertex), n_iso in {20, 60}.  Monitor on the real emitter_sorted at its "
     "call site inside iso_finder",
     clause="relabellings are ranked by the emitter budget: whenever iso_finder sorts, each budget it uses is the max GF(2) cut "
     "rank and the returned relabellings (after the original) are in ascending budget order",
@@ -556,6 +560,25 @@ def run(tier, seed):
                 continue
             seen.add(key)
             once.append({"n": 6, "edges": edges, "rep": "g", "comp": "stab"})
+    # hardening: targets on >= 6 vertices (where a rank over the wrong field would first show), fixed + seeded
+    from refsem import c02_targets as T
+
+    def edges_of(A):
+        return [[i, j] for i in range(len(A)) for j in range(i + 1, len(A)) if A[i][j]]
+
+    fam6 = CR.field_sensitive_graphs6()
+    for k, A in enumerate(CR.all_labellings(CR.cycle(6)) + fam6[::8]):
+        if not C02._has_isolated(6, edges_of(A)):
+            alloc.append({"n": 6, "edges": edges_of(A), "rep": "gs"[k % 2], "comp": "stab"})
+    for k in range(200 if thorough else 30):
+        n = 7 + k % 2
+        while True:
+            A = _rand_adj(n, rng, p=rng.uniform(0.3, 0.7))
+            if not C02._has_isolated(n, edges_of(A)) and (k % 2 or CR.field_sensitive(A)):
+                break
+        alloc.append({"n": n, "edges": edges_of(A), "rep": "gs"[k % 2], "comp": "stab"})
+    if not thorough:
+        once += [{"n": 6, "edges": T.edges(6, i), "rep": "g", "comp": "stab"} for i in T.SIX_VERTEX[::23]]
     once_iso = [c for c in C02.isolated_cases(tier) if c["rep"] == "g" and c["comp"] == "stab"]  # fixed list (known finding C02-F1)
     S.max_failures_per_item = 120  # record every failing input of the fixed isolated-vertex list (29 / 72)
     nt = lambda i: len(i["edges"]) > 0
@@ -568,6 +591,69 @@ def run(tier, seed):
         n = int(rng.integers(2, 7))
         lists.append({"adjs": [_rand_adj(n, rng) for _ in range(int(rng.integers(2, 7)))]})
     S.map("emitter_sorted.budget", lists)
+
+    # ---- hardening domains (sizes where the rank over the reals and over GF(2) part ways: >= 6 vertices)
+    fam = CR.field_sensitive_graphs6()  # 384, fixed
+    rings = CR.all_labellings(CR.cycle(6))  # 60
+    named = rings + CR.all_labellings(CR.complete_bipartite(3, 3)) + CR.all_labellings(CR.prism()) \
+        + CR.all_labellings(CR.complement(CR.complete_bipartite(3, 3)))  # 60 + 10 + 60 + 10
+
+    def rand_graph(n, sensitive):
+        while True:
+            A = _rand_adj(n, rng, p=rng.uniform(0.3, 0.7))
+            if not sensitive or CR.field_sensitive(A):
+                return A
+
+    ep = [{"adj": A, "sv": 1} for A in fam + named]
+    if thorough:
+        seen = {jkey(A) for A in fam + named}
+        ep += [{"adj": A, "sv": 1} for A in (CR.adj_from_index(6, i) for i in range(2 ** 15)) if jkey(A) not in seen]
+    else:
+        ep += [{"adj": CR.adj_from_index(6, int(i)), "sv": 1} for i in rng.integers(0, 2 ** 15, size=150)]
+    for k in range(1500 if thorough else 120):
+        n = 7 + k % 2
+        ep.append({"adj": rand_graph(n, k % 4 < 2), "k": int(rng.integers(0, n))})
+    S.map("height.entry_points_agree", ep, nontrivial=has_edge)
+
+    three_rungs = CR.adj_from_index(6, 0)
+    for a in range(3):
+        three_rungs[a][a + 3] = three_rungs[a + 3][a] = 1  # budget 3
+    path6 = [[1 if abs(i - j) == 1 else 0 for j in range(6)] for i in range(6)]  # budget 1
+    pool = fam + rings
+    big = []
+    for c in range(0, len(pool), 6):
+        chunk = [list(map(list, A)) for A in pool[c : c + 6]]
+        pos = (c // 6) % (len(chunk) + 1)
+        chunk.insert(pos, three_rungs)
+        chunk.insert((2 * pos + 1) % len(chunk), path6)
+        big.append({"adjs": chunk})
+    for k in range(400 if thorough else 40):
+        n = 6 + k % 3
+        big.append({"adjs": [rand_graph(n, j % 2 == 0) for j in range(int(rng.integers(3, 7)))]})
+    S.map("emitter_sorted.budget.six_plus", big)
+
+    iso = []
+    for A in fam[::8]:
+        for n_iso in (60, 100):
+            iso.append({"adj": A, "n_iso": n_iso, "seed": (len(iso) // 2) % 2})
+    for base in (CR.cycle(6), CR.complete_bipartite(3, 3), CR.prism()):
+        labs = CR.all_labellings(base)
+        for A in (labs[0], labs[len(labs) // 2], labs[-1]):
+            for n_iso in (8, 30):
+                for sd in (0, 1):
+                    iso.append({"adj": A, "n_iso": n_iso, "seed": sd})
+    for k in range(300 if thorough else 30):
+        n = 6 + k % 2
+        A = rand_graph(n, k % 2 == 0)
+        if k % 3 == 0:  # make vertex n-1 a twin of vertex 0: a non-trivial automorphism, so that relabellings coincide
+            A = [row[:] for row in A]
+            for j in range(n):
+                A[n - 1][j] = A[j][n - 1] = 0 if j in (0, n - 1) else A[0][j]
+        iso.append({"adj": A, "n_iso": int((20, 60)[k % 2]), "seed": int(rng.integers(0, 1000))})
+    S.map("iso_finder.sort_emit", iso)
+    S.note("height.entry_points_agree / emitter_sorted.budget.six_plus / iso_finder.sort_emit: expected values from refsem.cutrank "
+           "(bit-matrix elimination over GF(2)), cross-checked per case with the state-vector entropy for n <= 6; the 'field-sensitive' "
+           "families are selected with a real-rank computation that is used for selection only")
     S.note("height_dict(graph=...) is only driven with graphs whose node labels are inserted in increasing order: the function "
            "computes `list(graph.nodes()).sort()` (= None), i.e. it silently uses insertion order, which coincides with the "
            "documented sorted order exactly on this domain; which of the two orders is intended for other graphs is not fixed by the statement")
